@@ -432,11 +432,95 @@ pub fn execute(case: &SchedCase) -> SchedRun {
                     classes_involved.len(),
                     low_workers.len(),
                 );
+                // ---- which limits does the documented encoding put on the lower class here?
+                // (solver.rs: for the cut of class l below the waiting task's level and the
+                //  blocker class h, on every worker capable of h: #l <= cut + gap if gap > 0,
+                //  and the sum of #l over the workers without a gap <= cut).  Recomputed here
+                //  from the snapshot, independently of batches.rs / gap.rs.
+                let req_l = req_vector(&before, l_rq);
+                let cut_l = before
+                    .tasks
+                    .iter()
+                    .filter(|t| {
+                        matches!(t.state, TaskStateSnap::Waiting { unfinished_deps: 0 })
+                            && t.rq_id == l_rq
+                            && t.priority > pl
+                    })
+                    .count() as i64;
+                let max_count = |req: &[u64], free: &[i64]| -> i64 {
+                    req.iter()
+                        .enumerate()
+                        .filter(|(_, a)| **a > 0)
+                        .map(|(i, a)| free.get(i).copied().unwrap_or(0).max(0) / *a as i64)
+                        .min()
+                        .unwrap_or(0)
+                };
+                let mut within = true;
+                let mut zero_sum = 0i64;
+                let mut limits: Vec<String> = Vec::new();
+                for (w2, tot) in &total {
+                    if !fits(&req_h, tot) {
+                        continue;
+                    }
+                    let cnt_h = max_count(&req_h, tot);
+                    let mut free: Vec<i64> = tot
+                        .iter()
+                        .enumerate()
+                        .map(|(i, a)| {
+                            (*a - cnt_h * req_h.get(i).copied().unwrap_or(0) as i64).max(0)
+                        })
+                        .collect();
+                    for t in &before.tasks {
+                        let on = match &t.state {
+                            TaskStateSnap::Assigned { worker_id, .. }
+                            | TaskStateSnap::Running { worker_id, .. } => worker_id == w2,
+                            _ => false,
+                        };
+                        if on && t.rq_id != h.rq_id {
+                            for (i, a) in req_vector(&before, t.rq_id).iter().enumerate() {
+                                if i < free.len() {
+                                    free[i] = (free[i] - *a as i64).max(0);
+                                }
+                            }
+                        }
+                    }
+                    let gap = max_count(&req_l, &free);
+                    let n_l = dispatched
+                        .iter()
+                        .filter(|(t, ww)| {
+                            ww == w2 && task_before.get(t).map(|x| x.rq_id) == Some(l_rq)
+                        })
+                        .count() as i64;
+                    if gap > 0 {
+                        limits.push(format!("w{w2}: #l={n_l} <= cut {cut_l} + gap {gap}"));
+                        if n_l > cut_l + gap {
+                            within = false;
+                        }
+                    } else {
+                        zero_sum += n_l;
+                        limits.push(format!("w{w2}: #l={n_l}, no gap"));
+                    }
+                }
+                if zero_sum > cut_l {
+                    within = false;
+                }
                 let sig = if same_class {
                     "priority inversion within one request class".to_string()
+                } else if !within {
+                    "priority inversion between request classes beyond the cut+gap limits of the encoding".to_string()
                 } else {
-                    format!("priority inversion between request classes; {domain}")
+                    format!("priority inversion between request classes within the per-worker cut+gap limits; {domain}")
                 };
+                let shape = format!("{shape} limits=[{}] no-gap-sum={zero_sum}", limits.join("; "));
+                // keep scanning: an inversion beyond the limits (or inside a class) is
+                // preferred over one the known findings describe
+                let weak = sig.contains("within the per-worker cut+gap limits");
+                if let Some((old, _)) = &run.alarm {
+                    let old_weak = old.contains("within the per-worker cut+gap limits");
+                    if !old_weak || weak {
+                        continue;
+                    }
+                }
                 run.alarm = Some((
                     sig,
                     format!(
@@ -449,7 +533,6 @@ pub fn execute(case: &SchedCase) -> SchedRun {
                         case
                     ),
                 ));
-                return;
             }
         }
         let _ = prio_of;
